@@ -49,6 +49,9 @@
 (* variable (a cmdenv tag) or can only be given in files; `dflt` whether   *)
 (* they have a documented default.                                         *)
 (*                                                                         *)
+(* OPEN in the statement, so accepted either way: a map given by both      *)
+(* files may be replaced by the later file or merged per key.              *)
+(*                                                                         *)
 (* DEVIATIONS of the code from this function that are known (Faithful):    *)
 (*   cmdenv-slice-first-only     a list given by flag/env keeps only its   *)
 (*                               first element                             *)
